@@ -1,4 +1,5 @@
 import PoxModel.Proofs.BufPool
+import PoxModel.Proofs.BufPoolCount
 /-! # C18 — packet buffers are unique, released exactly once, and bounded
 
 `step`/`run` (Model/BufPool.lean) are the buffer paths of the software switch; `handed` is the ghost list of
@@ -296,6 +297,228 @@ theorem use_to_controller (s : St) (h : Inv s) (id dl : Nat) :
     show useCtlStep s id dl = _
     unfold useCtlStep; rw [hl]
 
+/-! ## Refinement: every history behaves like an abstract map from outstanding buffer ids to frames
+
+`Spec` is the whole specification state — which ids are outstanding, and for which frame; `SpecStep` says what one
+operation may do to it and what it must answer (any unused non-zero id may be chosen for a new buffer).  `refines` shows
+that every history of the pool model is a history of the specification, with `abs` (forget the slot list) as the
+abstraction map. -/
+
+structure Spec where
+  held : List (Nat × Frame)
+  max : Nat
+  missLen : Nat
+
+def Spec.ids (a : Spec) : List Nat := a.held.map (·.1)
+
+def lenOf (dl : Option Nat) (missLen : Nat) : Nat := match dl with | some n => n | none => missLen
+
+inductive SpecStep : Spec → Op → Out → Spec → Prop
+  /-- a buffer is free: the packet is stored under an id that is not outstanding (and not 0); the packet-in carries that
+      id, at most `miss_send_len` / `max_len` bytes of the frame, and the true total length -/
+  | buffered (a : Spec) (fr : Bytes) (port : Nat) (dl : Option Nat) (i : Nat) :
+      a.held.length < a.max → i ≠ 0 → i ∉ a.ids →
+      SpecStep a (.arrive fr port dl) (.packetIn (some i) (fr.take (lenOf dl a.missLen)) fr.length port)
+        { a with held := a.held ++ [(i, (fr, port))] }
+  /-- `max` packets are outstanding: the packet-in carries the whole frame and no id; nothing is stored -/
+  | full (a : Spec) (fr : Bytes) (port : Nat) (dl : Option Nat) : a.max ≤ a.held.length →
+      SpecStep a (.arrive fr port dl) (.packetIn none fr fr.length port) a
+  /-- an outstanding id: its frame is emitted (with its ingress port) and the id is no longer outstanding -/
+  | release (a : Spec) (id : Nat) (fr : Bytes) (port : Nat) : (id, (fr, port)) ∈ a.held →
+      SpecStep a (.use id) (.emit fr port) { a with held := a.held.filter (fun e => e.1 ≠ id) }
+  /-- any other id: nothing is emitted, nothing changes -/
+  | stale (a : Spec) (id : Nat) : id ∉ a.ids → SpecStep a (.use id) .nothing a
+  /-- an outstanding id released towards the controller: that frame arrives again (while the old id is still
+      outstanding), then the old id is dropped -/
+  | releaseCtl (a : Spec) (id dl : Nat) (fr : Bytes) (port : Nat) (o : Out) (a1 : Spec) : (id, (fr, port)) ∈ a.held →
+      SpecStep a (.arrive fr port (some dl)) o a1 →
+      SpecStep a (.useCtl id dl) o { a1 with held := a1.held.filter (fun e => e.1 ≠ id) }
+  | staleCtl (a : Spec) (id dl : Nat) : id ∉ a.ids → SpecStep a (.useCtl id dl) .nothing a
+  | setMiss (a : Spec) (n : Nat) : SpecStep a (.setMiss n) .nothing { a with missLen := n }
+
+inductive SpecRun : Spec → List Op → List Out → Spec → Prop
+  | nil (a : Spec) : SpecRun a [] [] a
+  | cons (a a1 a2 : Spec) (op : Op) (o : Out) (ops : List Op) (os : List Out) :
+      SpecStep a op o a1 → SpecRun a1 ops os a2 → SpecRun a (op :: ops) (o :: os) a2
+
+/-- abstraction map: forget the slot list -/
+def abs (s : St) : Spec := { held := s.handed, max := s.pool.max, missLen := s.missLen }
+
+/-- the invariant, strengthened by: as many ids are outstanding as packets are stored -/
+def InvL (s : St) : Prop := Inv s ∧ s.handed.length = stored s.pool
+
+theorem init_invL (max miss : Nat) : InvL (init max miss) := ⟨init_inv max miss, by simp [init, stored]⟩
+
+theorem not_mem_ids_of_dead (s : St) (h : Inv s) (id : Nat) (hl : live s.pool id = none) : id ∉ (abs s).ids := by
+  intro hm
+  obtain ⟨e, he, he1⟩ := List.mem_map.mp hm
+  have := (h.2.1 e.1 e.2).mp he
+  have he1' : e.1 = id := he1
+  rw [he1', hl] at this; cases this
+
+theorem arrive_refines (s : St) (h : InvL s) (fr : Bytes) (port : Nat) (dl : Option Nat) :
+    SpecStep (abs s) (.arrive fr port dl) (arriveStep s fr port dl).2 (abs (arriveStep s fr port dl).1) ∧
+    InvL (arriveStep s fr port dl).1 := by
+  obtain ⟨hi, hlen⟩ := h
+  have hinv' := arrive_inv s fr port dl hi
+  unfold arriveStep at hinv' ⊢
+  cases ha : alloc s.pool (fr, port) with
+  | mk p' bid =>
+    rw [ha] at hinv'
+    have hmax : p'.max = s.pool.max := by have := alloc_max s.pool (fr, port); rw [ha] at this; exact this
+    cases bid with
+    | none =>
+      obtain ⟨hsame, hge, hall⟩ := alloc_none s.pool (fr, port) (by rw [ha])
+      rw [ha] at hsame; simp only at hsame; subst hsame
+      have hfull : stored s.pool = s.pool.slots.length := by
+        unfold stored
+        rw [List.filter_eq_self.mpr]
+        intro a ha'
+        obtain ⟨i, hi', hget⟩ := List.getElem_of_mem ha'
+        have := hall i hi'
+        rw [List.getD_eq_getElem?_getD, List.getElem?_eq_getElem hi', hget] at this
+        simpa using this
+      refine ⟨?_, hinv', hlen⟩
+      have : (abs s).max ≤ (abs s).held.length := by simp only [abs]; omega
+      exact SpecStep.full (abs s) fr port dl this
+    | some i =>
+      obtain ⟨f1, f2, -⟩ := alloc_fresh s.pool (fr, port) i (by rw [ha])
+      have hst := alloc_stored s.pool (fr, port) i (by rw [ha])
+      rw [ha] at hst f2; simp only at hst f2
+      have hb' : p'.slots.length ≤ p'.max := by
+        have := alloc_bounded s.pool (fr, port) hi.1; rw [ha] at this; exact this
+      have hle := stored_le p'
+      have hlt : (abs s).held.length < (abs s).max := by simp only [abs]; omega
+      have hi0 : i ≠ 0 := by
+        intro h0; subst h0; simp [live] at f2
+      have hfresh : i ∉ (abs s).ids := not_mem_ids_of_dead s hi i f1
+      refine ⟨?_, hinv', ?_⟩
+      · cases dl with
+        | none =>
+          have hd : (if fr.length > s.missLen then fr.take s.missLen else fr) = fr.take s.missLen := by
+            split
+            · rfl
+            · exact (List.take_of_length_le (by omega)).symm
+          have := SpecStep.buffered (abs s) fr port none i hlt hi0 hfresh
+          simp only [abs, lenOf] at this ⊢
+          rw [hmax, hd]; exact this
+        | some n =>
+          have hd : (if fr.length > n then fr.take n else fr) = fr.take n := by
+            split
+            · rfl
+            · exact (List.take_of_length_le (by omega)).symm
+          have := SpecStep.buffered (abs s) fr port (some n) i hlt hi0 hfresh
+          simp only [abs, lenOf] at this ⊢
+          rw [hmax, hd]; exact this
+      · simp only [List.length_append, List.length_singleton]; omega
+
+theorem use_refines (s : St) (h : InvL s) (id : Nat) :
+    SpecStep (abs s) (.use id) (useStep s id).2 (abs (useStep s id).1) ∧ InvL (useStep s id).1 := by
+  obtain ⟨hi, hlen⟩ := h
+  have hinv' := use_inv s id hi
+  obtain ⟨u1, u2, -⟩ := use_spec s.pool id
+  unfold useStep at hinv' ⊢
+  cases hu : use s.pool id with
+  | mk p' r =>
+    rw [hu] at hinv' u1 u2; simp only at u1 u2
+    have hmax : p'.max = s.pool.max := by have := use_max s.pool id; rw [hu] at this; exact this
+    cases r with
+    | none =>
+      have hsame := u2 u1.symm; subst hsame
+      exact ⟨SpecStep.stale (abs s) id (not_mem_ids_of_dead s hi id u1.symm), hinv', hlen⟩
+    | some f =>
+      have hmem : (id, f) ∈ s.handed := (hi.2.1 id f).mpr u1.symm
+      have hst := use_stored s.pool id f (by rw [hu])
+      rw [hu] at hst; simp only at hst
+      have hl := length_filter_ne s.handed id f hi.2.2 hmem
+      refine ⟨?_, hinv', ?_⟩
+      · have := SpecStep.release (abs s) id f.1 f.2 hmem
+        simp only [abs] at this ⊢
+        rw [hmax]; exact this
+      · simp only []; omega
+
+/-- **refines_step**: one operation of the pool is one step the specification allows, with the answer it requires -/
+theorem refines_step (s : St) (h : InvL s) (op : Op) :
+    SpecStep (abs s) op (step s op).2 (abs (step s op).1) ∧ InvL (step s op).1 := by
+  cases op with
+  | setMiss n => exact ⟨SpecStep.setMiss (abs s) n, h⟩
+  | arrive fr port dl => exact arrive_refines s h fr port dl
+  | use id => exact use_refines s h id
+  | useCtl id dl =>
+    show SpecStep (abs s) (.useCtl id dl) (useCtlStep s id dl).2 (abs (useCtlStep s id dl).1) ∧ InvL (useCtlStep s id dl).1
+    unfold useCtlStep
+    cases hlv : live s.pool id with
+    | none => exact ⟨SpecStep.staleCtl (abs s) id dl (not_mem_ids_of_dead s h.1 id hlv), h⟩
+    | some f =>
+      have hmem : (id, f) ∈ s.handed := (h.1.2.1 id f).mpr hlv
+      obtain ⟨ha, hia⟩ := arrive_refines s h f.1 f.2 (some dl)
+      obtain ⟨hu, hiu⟩ := use_refines (arriveStep s f.1 f.2 (some dl)).1 hia id
+      refine ⟨?_, hiu⟩
+      -- the old id is still outstanding after the re-buffering, so `useStep` takes the `release` branch
+      have hkeep : (id, f) ∈ (arriveStep s f.1 f.2 (some dl)).1.handed := by
+        unfold arriveStep
+        cases hal : alloc s.pool (f.1, f.2) with
+        | mk p' b => cases b <;> simp [hmem]
+      have hlive := (hia.1.2.1 id f).mp hkeep
+      have hstate : abs (useStep (arriveStep s f.1 f.2 (some dl)).1 id).1 =
+          { abs (arriveStep s f.1 f.2 (some dl)).1 with
+            held := (abs (arriveStep s f.1 f.2 (some dl)).1).held.filter (fun e => e.1 ≠ id) } := by
+        obtain ⟨u1, -, -⟩ := use_spec (arriveStep s f.1 f.2 (some dl)).1.pool id
+        unfold useStep
+        cases hu' : use (arriveStep s f.1 f.2 (some dl)).1.pool id with
+        | mk p2 r =>
+          rw [hu'] at u1; simp only at u1
+          rw [hlive] at u1; subst u1
+          have hmax : p2.max = (arriveStep s f.1 f.2 (some dl)).1.pool.max := by
+            have := use_max (arriveStep s f.1 f.2 (some dl)).1.pool id; rw [hu'] at this; exact this
+          simp only [abs, hmax]
+      simp only []
+      rw [hstate]
+      exact SpecStep.releaseCtl (abs s) id dl f.1 f.2 _ _ hmem ha
+
+/-- **refines**: every history of the buffer code is a history of the abstract specification — same answers, and the
+abstract state is the controller's view (`handed`) throughout. -/
+theorem refines (s : St) (h : InvL s) (ops : List Op) : SpecRun (abs s) ops (run s ops).2 (abs (run s ops).1) := by
+  induction ops generalizing s with
+  | nil => exact SpecRun.nil _
+  | cons op ops ih =>
+    obtain ⟨hs, hi⟩ := refines_step s h op
+    simp only [run]
+    exact SpecRun.cons _ _ _ op _ ops _ hs (ih _ hi)
+
+theorem refines_init (max miss : Nat) (ops : List Op) :
+    SpecRun { held := [], max := max, missLen := miss } ops (run (init max miss) ops).2 (abs (run (init max miss) ops).1) :=
+  refines (init max miss) (init_invL max miss) ops
+
+/-- the specification really forbids things: it never stores more than `max`, never reuses an outstanding id -/
+theorem spec_arrive_sound (a a' : Spec) (fr : Bytes) (port : Nat) (dl : Option Nat) (o : Out)
+    (hb : a.held.length ≤ a.max) (hn : a.ids.Nodup)
+    (h : SpecStep a (.arrive fr port dl) o a') : a'.held.length ≤ a'.max ∧ a'.ids.Nodup := by
+  cases h with
+  | buffered _ _ _ i hlt _ hfresh =>
+    refine ⟨by simp; omega, ?_⟩
+    simp only [Spec.ids, List.map_append, List.map_cons, List.map_nil]
+    refine List.nodup_append.mpr ⟨hn, by simp, ?_⟩
+    intro x hx y hy
+    simp only [List.mem_singleton] at hy
+    subst hy
+    intro hxy; subst hxy; exact hfresh hx
+  | full _ _ _ _ => exact ⟨hb, hn⟩
+
+theorem spec_step_sound (a a' : Spec) (op : Op) (o : Out) (hb : a.held.length ≤ a.max) (hn : a.ids.Nodup)
+    (h : SpecStep a op o a') : a'.held.length ≤ a'.max ∧ a'.ids.Nodup := by
+  cases h with
+  | buffered fr port dl i hlt h0 hfresh => exact spec_arrive_sound a _ fr port dl _ hb hn (SpecStep.buffered a fr port dl i hlt h0 hfresh)
+  | full fr port dl hf => exact ⟨hb, hn⟩
+  | release id fr port _ =>
+    exact ⟨Nat.le_trans (List.length_filter_le _ _) hb, (List.filter_sublist.map _).nodup hn⟩
+  | stale id _ => exact ⟨hb, hn⟩
+  | releaseCtl id dl fr port o' a1 hm hst =>
+    obtain ⟨h1, h2⟩ := spec_arrive_sound a _ fr port (some dl) o hb hn hst
+    exact ⟨Nat.le_trans (List.length_filter_le _ _) h1, (List.filter_sublist.map _).nodup h2⟩
+  | staleCtl id dl _ => exact ⟨hb, hn⟩
+  | setMiss n => exact ⟨hb, hn⟩
+
 /-! non-vacuity: a pool of 2 after three arrivals and a use — ids 1, 2, none; using 1 frees it and 1 is reused -/
 def demoOps : List Op :=
   [.arrive [1,2,3,4] 7 none, .arrive [5,6] 8 (some 1), .arrive [9] 9 none, .use 1, .use 1, .arrive [10,11,12] 3 none]
@@ -305,5 +528,16 @@ example : (run (init 2 2) demoOps).2 =
 example : Inv (init 2 2) := init_inv 2 2
 example : (run (init 2 9) [.arrive [1,2,3] 7 none, .useCtl 1 2, .use 1, .use 2]).2 =
     [.packetIn (some 1) [1,2,3] 3 7, .packetIn (some 2) [1,2] 3 7, .nothing, .emit [1,2,3] 7] := by decide
+
+/-! the specification is not vacuous: it refuses to emit anything for an id that is not outstanding, and refuses an
+unbuffered packet-in while a buffer is free -/
+example (a' : Spec) : ¬ SpecStep { held := [], max := 2, missLen := 0 } (.use 1) (.emit [1] 0) a' := by
+  intro h; cases h with
+  | release id fr port hm => simp at hm
+example (a' : Spec) : ¬ SpecStep { held := [], max := 2, missLen := 0 } (.arrive [1,2] 3 none) (.packetIn none [1,2] 2 3) a' := by
+  intro h; cases h with
+  | full fr port dl hf => simp at hf
+example : SpecRun { held := [], max := 2, missLen := 2 } demoOps (run (init 2 2) demoOps).2 (abs (run (init 2 2) demoOps).1) :=
+  refines_init 2 2 demoOps
 
 end Pox.C18
